@@ -71,6 +71,53 @@ def _state_id(state: Dict[str, bytes]) -> str:
     return h.hexdigest()[:20]
 
 
+def gen_json_texts(rng: random.Random, n: int) -> List[str]:
+    """Random RFC 8259 texts (json.dumps of random values, several layouts) and near misses
+    (one character deleted / inserted / replaced, prefixes), ASCII only, no capital N / I."""
+    alpha = "abcdefxyz019 _-:,{}[]\\/\"\u00e9\n\t"
+
+    def val(depth):
+        k = rng.randrange(8 if depth < 3 else 5)
+        if k == 0:
+            return rng.choice([True, False, None])
+        if k == 1:
+            return rng.choice([0, -1, 7, 10 ** 12, -305])
+        if k == 2:
+            return rng.choice([0.5, -1.5e+30, 2e-7, 1.0, 123.456])
+        if k in (3, 4):
+            return "".join(rng.choice(alpha) for _ in range(rng.randrange(6)))
+        if k in (5, 6):
+            return {"".join(rng.choice(alpha) for _ in range(rng.randrange(1, 4))): val(depth + 1)
+                    for _ in range(rng.randrange(4))}
+        return [val(depth + 1) for _ in range(rng.randrange(4))]
+
+    out = []
+    junk = "{}[]:,\"\\ 0e.-+tfnu\n\tx"
+    while len(out) < n:
+        v = val(0)
+        lay = rng.randrange(3)
+        t = json.dumps(v, allow_nan=False) if lay == 0 else \
+            json.dumps(v, allow_nan=False, separators=(",", ":")) if lay == 1 else \
+            " " + json.dumps(v, allow_nan=False, indent=rng.choice([1, "\t"])) + "\r\n"
+        out.append(t)
+        for _ in range(3):
+            if not t:
+                break
+            i = rng.randrange(len(t))
+            m = rng.randrange(4)
+            out.append(t[:i] + t[i + 1:] if m == 0 else t[:i] + rng.choice(junk) + t[i:] if m == 1 else
+                       t[:i] + rng.choice(junk) + t[i + 1:] if m == 2 else t[:i])
+    return [t for t in out[:n] if "N" not in t and "I" not in t]
+
+
+def _note_text(texts: Dict[str, List[bool]], state: Dict[str, bytes], newest: str):
+    """The text of the newest user block as the loader would hand it to json.loads, with the
+    verdict of the real json.loads."""
+    t = crashlib.block_text(state[newest][:reclib.UB_SIZE])
+    if t is not None and t not in texts:
+        texts[t] = crashlib.real_json_verdict(t)
+
+
 def w_history(arg) -> Dict[str, Any]:
     """One history: record, enumerate crash states, judge each with the real code."""
     cls_name, seed, nrounds, root = arg
@@ -92,7 +139,7 @@ def _history(cls_name, seed, nrounds, root, rounds=None) -> Dict[str, Any]:
     names = Names()
     committed: List[Dict[str, Any]] = []
     out: Dict[str, Any] = {"cls": cls_name, "seed": seed, "rounds": [], "violations": [], "states": 0,
-                           "ids": set(), "timeouts": 0, "in_points": 0, "in_new": 0, "in_classes": {}}
+                           "ids": set(), "timeouts": 0, "in_points": 0, "in_new": 0, "in_classes": {}, "texts": {}}
     model_rounds: List[Any] = []
     c0_rows = None
     for i, rd in enumerate(rec["rounds"]):
@@ -124,6 +171,8 @@ def _history(cls_name, seed, nrounds, root, rounds=None) -> Dict[str, Any]:
             if o.get("class") == "timeout":
                 out["timeouts"] += 1
             na = crashlib.newest_abs(cs["state"])
+            if cs.get("k") is not None:
+                _note_text(out["texts"], cs["state"], newest)
             # reader of the other record class, on the states that are not torn blocks and on a
             # sample of the torn ones
             xr = None
@@ -158,6 +207,8 @@ def _history(cls_name, seed, nrounds, root, rounds=None) -> Dict[str, Any]:
         for cs in crashlib.intercepted_states(evs, newest):
             sid = _state_id(cs["state"])
             out["in_points"] += 1
+            if cs.get("torn"):
+                _note_text(out["texts"], cs["state"], newest)
             if sid in round_ids:
                 continue
             round_ids.add(sid)
@@ -301,9 +352,11 @@ def run(ctx: vlib.Ctx):
     proof = ctx.check_proofs()
     cov = ctx.coverage
     cov["trusted_base"] = vlib.TRUSTED_COMMON + [
-        "modelled, not verified: json.loads + pydantic parse_obj (enter the theorems only through the necessary "
-        "condition json_nec: terminated string literals, bracket depth, no colon after a member value; checked "
-        "against the real loader on every torn block of every run); the order in which the operating system makes "
+        "modelled, not verified: json.loads + pydantic parse_obj enter the theorems through ONE premise: they accept "
+        "only RFC 8259 texts with an object at top level (the grammar is coq/Rec/JsonGrammar.v; that such texts satisfy "
+        "json_nec is proved, C11_json_grammar_nec; Python's documented extensions NaN / Infinity / -Infinity need a capital "
+        "N or I, absent from every text met: json_texts_with_capital_N_or_I); the premise is tested by running the proved-sound "
+        "recogniser json_okb against the real json.loads on every torn block text of every run; the order in which the operating system makes "
         "the bytes of one write() visible (prefix order assumed: torn k = first k bytes new), page-cache reordering "
         "across files and fsync semantics (program order of the micro-steps assumed); HDF5 library internals while a "
         "container is open for writing (the payload of the newest container is an arbitrary digest in the model; an "
@@ -332,7 +385,7 @@ def run(ctx: vlib.Ctx):
         "a write() that is interrupted leaves a prefix of the new bytes followed by the old bytes (no reordering inside one write)",
         "the file-system effects of one process become visible in program order (no write-back reordering across files; process death, not power loss)",
         "patch uuids are fresh (uuid1) and digests of different manifest prefixes differ from the digest of the whole manifest",
-        "json.loads/parse_obj accept only texts satisfying json_nec (tested on every torn block)",
+        "json.loads/parse_obj accept only RFC 8259 texts with an object at top level (json_okb vs json.loads on every torn block text; no NaN/Infinity possible: no capital N/I in the texts)",
     ]
     if not proof["ok"]:
         ctx.violation("proof obligations of Properties/C11.v do not check: " + "; ".join(proof["problems"])[:500],
@@ -437,6 +490,33 @@ def analyse(ctx, res) -> Dict[str, Any]:
                     disagreements.append({"what": "the sequence of file-level writes inside create_patch / commit_patch "
                                           "is not the model's sequence of micro-steps", "cls": r["cls"],
                                           "model": want, "real": rd["sig"]})
+    # ---- the JSON grammar: the model's recogniser json_okb against the real json.loads on every
+    # torn user-block text met (C11_json_okb_sound ties json_okb to the grammar, C11_json_grammar_nec
+    # the grammar to json_nec)
+    texts: Dict[str, List[bool]] = {}
+    for r in res:
+        texts.update(r["texts"])
+    n_torn_texts = len(texts)
+    for t in gen_json_texts(ctx.rng, ctx.budget(4000, 20000)):
+        if t not in texts:
+            texts[t] = crashlib.real_json_verdict(t)
+    tlist = sorted(texts)
+    jres = vlib.run_model("c11j", [[t] if t else [] for t in tlist])
+    json_bad = 0
+    json_accept = 0
+    ni = 0
+    for t, j in zip(tlist, jres):
+        okb, nec, no_ni = j[0] == "T", j[1] == "T", j[2] == "T"
+        real_ok, real_obj = texts[t]
+        json_accept += real_ok
+        ni += not no_ni
+        if okb != real_ok or (real_obj and not nec):
+            json_bad += 1
+            if json_bad == 1:
+                disagreements.append({"what": "json_okb (RFC 8259 grammar recogniser) and the real json.loads differ on a "
+                                      "torn user-block text" if okb != real_ok else
+                                      "a text json.loads reads as an object fails the necessary condition json_nec",
+                                      "text": t, "model": [okb, nec], "real": [real_ok, real_obj]})
     # ---- the encoder against every block met
     enc_cases = [e[0] for r in res for rd in r["rounds"] for e in rd.get("enc", [])]
     enc_want = [e[1] for r in res for rd in r["rounds"] for e in rd.get("enc", [])]
@@ -578,6 +658,8 @@ def analyse(ctx, res) -> Dict[str, Any]:
         "intercepted_points_not_among_synthesised": sum(r["in_new"] for r in res),
         "intercepted_new_point_outcomes": _merge(r["in_classes"] for r in res),
         "write_sequences_seen": sorted(sig_seen), "write_sequence_mismatches": sig_bad,
+        "json_texts_compared": len(tlist), "json_torn_block_texts": n_torn_texts, "json_texts_accepted_by_json_loads": json_accept,
+        "json_recogniser_disagreements": json_bad, "json_texts_with_capital_N_or_I": ni,
         "encoder_blocks_compared": len(enc_cases), "encoder_blocks_equal": len(enc_cases) - enc_bad,
         "unreadable_newest_allowed": unreadable_newest,
         "torn_unclassified": unknown, "new_text_not_tight": not_tight, "commit_shape_side_condition_failed": shape_fail,
